@@ -180,17 +180,25 @@ def day_range_rule(ctx: Ctx, rid: str):
                key=key_of_text(rid, fn.qual, f"ends {len(sl)}"))
         if not ok_ends:
             continue
-        # orderings under which this return is taken
+        # orderings under which this return is taken: the must-facts at the return (enclosing tests and earlier exits alike)
         tab = {"<": True, "=": True, ">": True}
-        for i, b in enclosing_ifs(r, fn.node):
-            names_lo = lambda e: norm(e) == norm(lo)
-            names_hi = lambda e: isinstance(hi, ast.BinOp) and norm(e) == norm(hi.left)
-            t = order_table(i.test, names_lo, names_hi)
+        names_lo = lambda e: norm(e) == norm(lo)
+        names_hi = lambda e: isinstance(hi, ast.BinOp) and norm(e) == norm(hi.left)
+        node = cfg_of(fn).node_containing(r)
+        for cl in (facts_of(fn).at(node) if node is not None else ()):
+            if len(cl) != 1:
+                continue
+            (txt, pol), = tuple(cl)
+            try:
+                te = ast.parse(txt, mode="eval").body
+            except SyntaxError:
+                continue
+            t = order_table(te, names_lo, names_hi)
             if all(v is None for v in t.values()):
                 continue
             for k in tab:
                 v = t[k]
-                v = (not v) if (b != "T" and v is not None) else v
+                v = (not v) if (pol is False and v is not None) else v
                 tab[k] = tab[k] and (v is not False)
         single = len(sl) == 1
         okshape = (single and not tab[">"]) or (len(sl) == 2 and not tab["<"] and not tab["="] and sl[0][1] is None and sl[1][0] is None)
